@@ -106,7 +106,56 @@ theorem identity_headers_ignored (cfg : Cfg) (htpasswd : Str → Str → Str) (e
   unfold gate credentials externalLogin
   cases hbk : cfg.backend <;> simp_all
 
+/-! htpasswd_cache: `content` maps what `stat` shows (size, mtime) to the file's lines — the assumption that an
+    edit always changes size or mtime (documented for the option).  Invariant: the cached table is the parse of
+    the content that belongs to the remembered (size, mtime). -/
+def CacheInv (content : Nat × Nat → List Str) (c : HtCache) : Prop := c.table = parseFile (content (c.size, c.mtime))
+
+/-- one cached login answers exactly like reading the file now, and keeps the invariant -/
+theorem cached_login_is_uncached (content : Nat × Nat → List Str) (c : HtCache) (hc : CacheInv content c)
+    (size mtime : Nat) (scheme : Scheme) (oracle : Oracle) (l pw : Str) :
+    (cachedLogin c (content (size, mtime)) size mtime scheme oracle l pw).2
+        = htpasswdLogin (content (size, mtime)) scheme oracle l pw ∧
+    CacheInv content (cachedLogin c (content (size, mtime)) size mtime scheme oracle l pw).1 := by
+  unfold cachedLogin HtCache.refresh CacheInv at *
+  by_cases h : size ≠ c.size ∨ mtime ≠ c.mtime
+  · simp only [h, if_true, HtCache.load]
+    exact ⟨rfl, trivial⟩
+  · simp only [h, if_false]
+    have hs : size = c.size := by
+      by_cases e : size = c.size
+      · exact e
+      · exact absurd (Or.inl e) h
+    have hm : mtime = c.mtime := by
+      by_cases e : mtime = c.mtime
+      · exact e
+      · exact absurd (Or.inr e) h
+    subst hs; subst hm
+    refine ⟨?_, hc⟩
+    unfold tableLogin htpasswdLogin
+    rw [hc]
+
+/-- every login of a history of file edits and logins answers like the uncached back-end on the file as it is at
+    that moment: a removed or changed entry stops authenticating with the next request -/
+theorem cached_history_is_uncached (content : Nat × Nat → List Str) (scheme : Scheme) (oracle : Oracle)
+    (steps : List (Nat × Nat × Str × Str)) (c : HtCache) (hc : CacheInv content c) :
+    cachedRun scheme oracle c (steps.map (fun s => (content (s.1, s.2.1), s.1, s.2.1, s.2.2.1, s.2.2.2)))
+      = steps.map (fun s => htpasswdLogin (content (s.1, s.2.1)) scheme oracle s.2.2.1 s.2.2.2) := by
+  induction steps generalizing c with
+  | nil => rfl
+  | cons s rest ih =>
+    obtain ⟨size, mtime, l, pw⟩ := s
+    have h := cached_login_is_uncached content c hc size mtime scheme oracle l pw
+    simp only [List.map_cons, cachedRun]
+    rw [h.1, ih _ h.2]
+
+theorem cache_load_inv (content : Nat × Nat → List Str) (size mtime : Nat) :
+    CacheInv content (HtCache.load (content (size, mtime)) size mtime) := rfl
+
 -- non-vacuity
+example : (cachedRun .plain (fun _ _ _ => none) (HtCache.load ["a:old".toList] 6 1)
+    [(["a:new".toList], 6, 2, "a".toList, "old".toList), (["a:new".toList], 6, 2, "a".toList, "new".toList)])
+    = [[], "a".toList] := by decide +kernel
 example : htpasswdLogin ["# users".toList, "alice:s3:cret".toList, "alice:other".toList] .plain (fun _ _ _ => none)
     "alice".toList "s3:cret".toList = "alice".toList := by decide +kernel
 example : gate ⟨.none, false, false, false⟩ (fun _ _ => []) ⟨.basic "u/../x".toList "p".toList, [], []⟩ = .unauthorized := by
